@@ -45,8 +45,9 @@ def _moment(m, s, k):
     return tot
 
 
-def quadrature(S, num_locs, kmax, setting_history):
-    """exactness on monomials for all (m, v) in a box; optional: the rule is built after a settings change"""
+def quadrature(S, num_locs, kmax, setting_history, cast=False):
+    """exactness on monomials for all (m, v) in a box; optional: the rule is built after a settings change; cast: the rule
+    goes through a dtype conversion (Module._apply) before it is used and must remain the rule that was built"""
     if setting_history:
         with gpytorch.settings.num_gauss_hermite_locs(setting_history):
             _ = GaussHermiteQuadrature1D()  # an earlier rule built under another setting
@@ -55,6 +56,15 @@ def quadrature(S, num_locs, kmax, setting_history):
         S.check_concrete(q.locations.numel() == num_locs, "rule built under num_gauss_hermite_locs(%d) has %d nodes" % (num_locs, q.locations.numel()))
     else:
         q = GaussHermiteQuadrature1D(num_locs)
+    if cast:
+        loc0, w0 = q.locations.clone(), q.weights.clone()
+        q = q.float().double().to(torch.float64)
+        S.check_concrete(q.locations.numel() == num_locs and q.weights.numel() == num_locs,
+                         "a rule built with %d nodes has %d nodes after dtype casts" % (num_locs, q.locations.numel()))
+        if q.locations.numel() == num_locs:
+            S.check_concrete(bool(torch.allclose(q.locations, loc0, rtol=1e-6, atol=1e-7) and torch.allclose(q.weights, w0, rtol=1e-6, atol=1e-7)),
+                             "nodes / weights unchanged (to float32 rounding) by dtype casts")
+        q = GaussHermiteQuadrature1D(num_locs).double()  # float64 -> float64: exactly the same rule, used below
     m = S.randn(1) * 0.5
     v = S.rand(1, lo=0.3, hi=1.5)
     M = S.sym_tensor(m, "m", lo=-5.0, hi=5.0)
@@ -78,7 +88,10 @@ def quadrature(S, num_locs, kmax, setting_history):
     S.term_hashes.add("quad%d" % num_locs)
 
 
-def bernoulli(S, n, batch):
+def bernoulli(S, n, batch, cov="dense"):
+    """cov: how the latent covariance is held (dense tensor, DiagLinearOperator, DenseLinearOperator); the latent
+    distribution is an input: it is read, never modified, so repeated calls on the same object agree"""
+    from linear_operator.operators import DiagLinearOperator, DenseLinearOperator
     bs = (batch,) if batch else ()
     mean = S.randn(*bs, n)
     Ms = S.sym_tensor(mean, "m")
@@ -86,9 +99,15 @@ def bernoulli(S, n, batch):
     Vs = S.sym_tensor(var, "v", positive=True)
     lik = gpytorch.likelihoods.BernoulliLikelihood()
     with S.mode():
-        d = MultivariateNormal(mean, torch.diag_embed(var))
+        cv = torch.diag_embed(var)
+        d = MultivariateNormal(mean, {"dense": lambda: cv, "diag": lambda: DiagLinearOperator(var.clone()),
+                                      "lazy": lambda: DenseLinearOperator(cv)}[cov]())
         marg = lik.marginal(d)
         probs = marg.probs
+        y = (S.rand(*bs, n) > 0.5).double()
+        lmarg = lik.log_marginal(y, d)
+        probs_again = lik.marginal(d).probs
+        var_after = d.variance
         f = S.randn(*bs, n)
         Fs = S.sym_tensor(f, "f")
         cond = lik(f).probs
@@ -96,6 +115,13 @@ def bernoulli(S, n, batch):
         return (Sym.const(1.0) + sym_erf(x * Sym.const(1.0 / math.sqrt(2)))) * Sym.const(0.5)
     ref = np.vectorize(lambda mm, vv: Phi(mm / sym_sqrt(vv + Sym.const(1.0))), otypes=[object])(Ms, Vs)
     S.prove_eq(probs, ref, "Bernoulli marginal = Phi(m / sqrt(1 + v))")
+    S.prove_eq(probs_again, ref, "Bernoulli marginal of the same latent distribution, third call")
+    S.prove_eq(var_after, Vs, "the latent distribution's variance is unchanged by the likelihood calls")
+    # log_marginal goes through torch's logits parametrisation (clamped probabilities, softplus): compared at the witness
+    yv = y.numpy()
+    pc = np.vectorize(lambda p_: p_.c, otypes=[float])(ref)
+    want = np.log(np.where(yv > 0.5, pc, 1.0 - pc))
+    S.check_concrete(bool(np.allclose(lmarg.detach().numpy(), want, rtol=1e-6, atol=1e-9)), "Bernoulli log_marginal = log Phi(+-m / sqrt(1 + v)) at the witness")
     S.prove_eq(cond, np.vectorize(Phi, otypes=[object])(Fs), "Bernoulli conditional p(y=1|f) = Phi(f)")
 
 
@@ -231,6 +257,10 @@ def scenarios(tier, seed):
         add("quadrature", num_locs=20, kmax=7, setting_history=0)
     add("bernoulli", n=2, batch=0)
     add("bernoulli", n=2, batch=2)
+    add("bernoulli", n=2, batch=0, cov="diag")
+    add("bernoulli", n=2, batch=2, cov="lazy")
+    add("quadrature", num_locs=3, kmax=5, setting_history=0, cast=True)
+    add("quadrature", num_locs=24, kmax=1, setting_history=0, cast=True)
     for k in ("laplace", "studentt", "beta"):
         add("conditional_params", kind=k, n=2)
     add("softmax", n=3, mixing=True)   # n == num_features
